@@ -13,8 +13,8 @@ LEVEL = "model_checking"
 OPTIONS = {"quick": {"max_paths": 20000, "unit_budget_s": 600}, "thorough": {"max_paths": 100000, "unit_budget_s": 1800, "validate_every": 3}}
 DEPTH = {"quick": 2, "thorough": 4}
 BOUNDS = {
-    "quick": {"inductive_step": "pre-states: 4 states x <= 2 outstanding operations (each search or not) with symbolic distinct ids <= 60, symbolic counter <= 61; one call of each of the 15 client / 14 server operations with symbolic id, result code 0..80, drain amount -4..40 or None", "bmc": "every sequence of 2 operations from a fresh client and a fresh server"},
-    "thorough": {"inductive_step": "same", "bmc": "every sequence of 4 operations (15^4 client + 14^4 server sequences)"},
+    "quick": {"inductive_step": "pre-states: 4 states x <= 2 outstanding operations (each search or not; on the server also ids that are in the search registry but no longer outstanding) with symbolic distinct ids <= 60, symbolic counter <= 61; one call of each of the 24 client / 20 server operations (18/14 plain + 6/6 carrying a paged-results control with a symbolic cookie) with symbolic id, result code 0..80, drain amount -4..40 or None", "bmc": "every sequence of 2 operations (control-carrying variants included) from a fresh client and a fresh server"},
+    "thorough": {"inductive_step": "same", "bmc": "every sequence of 2 (with control-carrying variants) and 3 operations; every sequence of 4 client operations without drains (15^4)"},
 }
 OUTSIDE = ["more than 2 simultaneously outstanding operations in the inductive step", "ids above 60 (multi-octet INTEGER encodings are C01/C07's subject)", "a response whose kind does not match the operation its id belongs to (not specified by the property)"]
 ASSUMPTIONS = ["symbolic pre-states are injected into the session attributes; every real-mode run (path validation, replay) reaches the same abstract state through public calls only", "pending output is observed by draining a deep copy of the session (public API only); pending octets arise from real sends (BMC sequences), never by injection"]
@@ -23,7 +23,11 @@ PROPS = ("C09",)
 
 
 def units(tier):
-    return sess.step_units(tier) + sess.bmc_units(tier, DEPTH[tier])
+    if tier == "quick":
+        return sess.step_units(tier) + sess.bmc_units(tier, 2)
+    # depth 4 on the client (ids and response correlation are the client's business), without drains
+    f = lambda side, op: side == "client" and not op.startswith("drain") and op != "search_unencodable"  # noqa: E731
+    return sess.step_units(tier) + sess.bmc_units(tier, 2) + sess.bmc_units(tier, 3) + sess.bmc_units(tier, 4, f)
 
 
 def body(ctx, shape):
